@@ -753,6 +753,15 @@ def _oracle_plane_once(p, R, N, pd, dd, pdv, ddv, kw, VE):
         Plane.validate(s)
     except VE as e:
         out.append(("plane.serialize/validates", "serialize() output fails validate: %s; document %r" % (e.message, s)))
+    # the documented positional order (position_decimals, direction_decimals) means the same as the keywords
+    if pd is not None and dd is not None:
+        try:
+            sp, rp = p.serialize(pd, dd), p.rounded(pd, dd)
+            if sp != s or not (same_array(rp.reference_point, r.reference_point) and same_array(rp.normal, r.normal)):
+                out.append(("plane.serialize/positional", "serialize(%d, %d) / rounded(%d, %d) differ from the keyword spelling: %r vs %r"
+                            % (pd, dd, pd, dd, sp, s)))
+        except Exception as e:
+            out.append(("plane.serialize/positional", "serialize(%d, %d) raised %s" % (pd, dd, type(e).__name__)))
     # round trip at the default direction decimals (and the requested position decimals)
     kd = {k: v for k, v in kw.items() if k == "position_decimals"}
     try:
